@@ -206,6 +206,77 @@ def stereo_marks(mol):
             sorted((min(n, m), max(n, m), b._stereo) for n, m, b in mol.bonds() if b._stereo is not None))
 
 
+def stereo_state(mol):
+    """marks by atom / bond ends, and the connected component of every atom (all bonds)."""
+    comp = {}
+    for i, c in enumerate(_components(mol)):
+        for n in c:
+            comp[n] = i
+    return ({n: a._stereo for n, a in mol._atoms.items() if a._stereo is not None},
+            {frozenset((n, m)): b._stereo for n, m, b in mol.bonds() if b._stereo is not None}, comp)
+
+
+def _components(mol):
+    seen, out = set(), []
+    for s in mol._atoms:
+        if s in seen:
+            continue
+        c, st = {s}, [s]
+        while st:
+            x = st.pop()
+            for y in mol._bonds.get(x, ()):
+                if y not in c and y in mol._atoms:
+                    c.add(y)
+                    st.append(y)
+        seen |= c
+        out.append(c)
+    return out
+
+
+NEUTRAL_OPS = {'read', 'fixStereo', 'fixStructure', 'calcLabels', 'flush', 'enter', 'exitOk', 'setXY', 'setMeta', 'copy',
+               'substructure', 'union', 'split'}
+
+
+def op_touched(op, mol_before):
+    """atoms whose bonds / attributes the op changes on its target (None: anything may change)."""
+    name = op[0]
+    if name in NEUTRAL_OPS and name not in ('union', 'exitOk'):
+        return set()
+    if name == 'addAtom':
+        return set()                       # an isolated atom
+    if name == 'addBond':
+        return {op[2], op[3]}
+    if name == 'delBond':
+        return {op[2], op[3]}
+    if name == 'delAtom':
+        return {op[2]} | set(mol_before._bonds.get(op[2], ()))
+    if name in ('setCharge', 'setRadical'):
+        return {op[2]}
+    return None
+
+
+def stereo_lost(before, mol_after, touched, mapping=None):
+    """a stereo label in a connected component the operation did not touch must survive unchanged
+    (labels are component-local: chirality never depends on another component).  `before` = stereo_state(before)."""
+    am, bm, comp = before
+    dirty = {comp[n] for n in touched if n in comp}
+    mp = (lambda n: mapping.get(n, n)) if mapping else (lambda n: n)
+    for n, s in am.items():
+        if comp[n] in dirty:
+            continue
+        a = mol_after._atoms.get(mp(n))
+        if a is None or a._stereo != s:
+            return f'stereo label of atom {n} ({s}) became {None if a is None else a._stereo}'
+    for e, s in bm.items():
+        x, y = tuple(e)
+        if comp[x] in dirty:
+            continue
+        b = mol_after._bonds.get(mp(x), {}).get(mp(y))
+        if b is None or b._stereo != s:
+            return f'cis/trans label of bond {sorted(e)} ({s}) became {None if b is None else b._stereo}'
+    return None
+
+
 def created_differs(src, op, res):
     """copy()/substructure() result against a fragment built independently from the source through the public
     constructor (same atom and neighbour order, marks carried over, then the same fix_structure/fix_stereo):
@@ -697,6 +768,9 @@ def fresh_seed(smi):
 
 
 ALPHABET_SEEDS = ['C1CCCCC1', 'CC(=O)O', 'C1CC1CN', 'C=CC=C', 'OCC(N)C.[Na+]']
+ANY_SEEDS = ['CN~[Cu]~NC', 'C[Mg]~Br', 'CC(=O)O~[Na]', 'C1CC1~[Fe]~C1CC1', 'N~[Cu]~N.C', 'Cl[Pd](Cl)(~N)~N']   # order-8 bonds
+DEPENDENT_STEREO_SEEDS = ['C/C=C([C@H](C)O)\\[C@@H](C)O', 'CC/C=C([C@@H](F)CC)/[C@H](F)CC', 'C[C@H](O)[C@H](F)[C@H](O)C',
+                          'C/C=C/[C@H](F)/C=C\\C', 'C/C=C([C@H](C)O)\\[C@@H](C)O.CC', 'CC(C)=[C@]=C(C)[C@H](F)Cl']
 STEREO_SEEDS = ['C[C@H]1CC[C@@H](C)CC1', '[C@@H]1(C)CC[C@H](C)CC1', 'OC[C@H]1OC(O)[C@H](O)[C@@H](O)[C@@H]1O', 'N[C@@H](C)C(=O)O',
                 'F[C@]1(Cl)CC[C@@]1(Br)C', 'C/C=C/C', 'C/C=C\\C(/C)=C/C', 'CC=[C@]=CC', 'C[C@H](O)/C=C/[C@@H](C)N',
                 'C[C@H]1CC[C@@H](C)CC1.N[C@@H](C)C(=O)O', 'F/C=C/[C@H]1C[C@@H]1C.C[C@@H](N)O']
@@ -769,6 +843,42 @@ def rollback_histories(smi):
     return out
 
 
+def neutral_histories(smi):
+    """operations that leave (part of) the molecule alone: every label there must survive; every order-8 bond is deleted
+    (and re-added) with component / ring values cached; atoms with order-8 bonds are deleted."""
+    m = fresh_seed(smi)
+    ids = list(m._atoms)
+    rd = [['read', 0, k] for k in CORE_READS + ['rings_count']]
+    out = [[['addAtom', 0, 6, -1, 0], ['delAtom', 0, max(ids) + 1, 0]], [['enter', 0], ['exitOk', 0]], [['fixStereo', 0]],
+           [['fixStructure', 0, 1]], [['substructure', 0, 0, ids]], [['substructure', 0, 1, ids]], [['copy', 0, 0, 0], ['fixStereo', 1]],
+           [['enter', 0], ['addAtom', 0, 6, -1, 0], ['exitOk', 0]], [['enter', 0], ['addAtom', 0, 6, -1, 0], ['exitExc', 0]],
+           [['addAtom', 0, 8, -1, 0], ['addAtom', 0, 6, -1, 0], ['addBond', 0, max(ids) + 1, max(ids) + 2, 1, 0],
+            ['delBond', 0, max(ids) + 1, max(ids) + 2, 0]]]
+    for a, b, bond in m.bonds():
+        if int(bond) == 8:
+            out.append(rd + [['delBond', 0, a, b, 0]] + rd)
+            out.append(rd + [['delBond', 0, b, a, 0]] + rd + [['addBond', 0, a, b, 8, 0]] + rd)
+            out.append(rd + [['delAtom', 0, a, 0]] + rd + [['copy', 0, 1, 1]])
+            out.append(rd + [['delAtom', 0, b, 0]] + rd + [['copy', 0, 1, 1]])
+            out.append([['enter', 0]] + rd + [['delBond', 0, a, b, 0]] + rd + [['exitOk', 0]] + rd)
+    return [rd + h + rd for h in out]
+
+
+def txn_multi_edit_histories(smi):
+    """several structural edits in ONE successful block (the pending-change set already exists for the later ones)."""
+    m = fresh_seed(smi)
+    b = [(x, y) for x, y, bd in m.bonds()]
+    ids = list(m._atoms)
+    out = []
+    for i in range(len(b)):
+        for j in range(len(b)):
+            if i != j and not set(b[i]) & set(b[j]):
+                for e2 in (['delBond', 0, b[j][0], b[j][1], 0], ['delBond', 0, b[j][1], b[j][0], 0]):
+                    out.append([['enter', 0], ['delBond', 0, b[i][0], b[i][1], 0], e2, ['exitOk', 0]])
+                    out.append([['enter', 0], ['addAtom', 0, 9, -1, 0], ['addBond', 0, max(ids) + 1, b[i][0], 1, 0], e2, ['exitOk', 0]])
+    return out[:24]
+
+
 def interleave_reads(seq, keys):
     out = [['read', 0, k] for k in keys]
     for op in seq:
@@ -823,7 +933,8 @@ def seed_pool(ctx):
     for s, m in molgen.handmade():
         if h_consistent(m) and len(m) <= 24:
             pool.append(s)
-    for s in STEREO_SEEDS:       # ring-closing stereocentres, allenes, cis/trans bonds
+    for s in STEREO_SEEDS + DEPENDENT_STEREO_SEEDS + ANY_SEEDS:   # ring-closing stereocentres, allenes, cis/trans, labels
+        # that exist only because of other labels, coordinate (order 8) bonds
         try:
             if h_consistent(fresh_seed(s)):
                 pool += [s, s]
@@ -861,6 +972,46 @@ def correspond(ctx):
             cases.append(('rollback', smi, h))
     run_batch(ctx, cases, 'txn-rollback')
     ctx.dist('rollback-histories', len(cases))
+    # 0c. coordinate-bond and neutral-operation histories; several edits in one successful block
+    cases = []
+    for smi in ANY_SEEDS + DEPENDENT_STEREO_SEEDS[:2] + STEREO_SEEDS[:2]:
+        for h in neutral_histories(smi):
+            cases.append(('neutral', smi, h))
+    for smi in ['CCO.CCN', 'CC[O-]', 'C1CC1CN', 'CCOCC.CN']:
+        for h in txn_multi_edit_histories(smi):
+            cases.append(('multi-edit', smi, h))
+    run_batch(ctx, cases, 'neutral-anybond-multiedit')
+    # 0d. property oracle on the real code for what the model does not represent (stereo labels, created objects):
+    #     neutral operations, rollbacks and random histories on stereo / coordinate-bond seeds; a failure here is a failing input
+    t1 = time.time()
+    n_or = 0
+    oracle_cases = []
+    for smi in DEPENDENT_STEREO_SEEDS + STEREO_SEEDS + ANY_SEEDS:
+        try:
+            hs = neutral_histories(smi)
+        except Exception:
+            continue
+        oracle_cases += [(smi, h) for h in hs]
+    for i in range(40 if ctx.quick else 600):
+        smi = ctx.rng.choice(DEPENDENT_STEREO_SEEDS + STEREO_SEEDS + ANY_SEEDS)
+        oracle_cases.append((smi, gen_sequence(ctx.rng, fresh_seed(smi), ctx.rng.randint(3, 15), allow_skip=False)))
+    from ..core import load_findings
+    seen_sig = {f['signature'] for f in load_findings('C13') if f['status'] == 'known'}   # reported by their standing probes
+    for smi, h in oracle_cases:
+        if time.time() - t1 > (25 if ctx.quick else 240):
+            break
+        try:
+            r = oracle(smi, h)
+        except Exception:
+            continue
+        n_or += 1
+        ctx.count(('oracle', smi, json.dumps(h)), n=len(h))
+        if r and r[0] not in seen_sig:
+            seen_sig.add(r[0])
+            small = shrink(smi, h, r[0])
+            r2 = oracle(smi, small) or r
+            ctx.fail(r2[0], r2[1], {'seed': smi, 'ops': small})
+    ctx.dist('oracle-histories', n_or)
     # 1. exhaustive short sequences over the alphabet with reads interleaved
     depth = 2 if ctx.quick else 3
     cases = []
@@ -928,13 +1079,24 @@ def oracle(smi, ops):
         flags.h_copied.add(0)   # stored hydrogens are not all rule-based (aromatic heteroatoms): not compared
     origin = {0: None}           # object -> (source object, how) for copies
     enter_state = {}
+    txn_touched, txn_stereo = {}, {}
     attr_in_txn, edit_in_txn = {}, {}
     for i, op in enumerate(ops):
         name, o = op[0], op[1]
         if o >= len(objs):
             return None
         before = [(observe(x)['mol'], observe(x)['xy'], observe(x)['meta'], keys_of(x)) for x in objs]
-        before_vals = [{k: canon(v) for k, v in x.__dict__.items() if '_lock_' not in k} for x in objs]
+        st_before = stereo_state(objs[o]) if symmetric(objs[o]) else None
+        touched = op_touched(op, objs[o])
+        if name == 'exitOk':
+            touched = txn_touched.pop(o, None)
+        elif o in enter_state and name not in ('enter',):
+            t0_ = txn_touched.get(o, set())
+            txn_touched[o] = None if (touched is None or t0_ is None) else (t0_ | touched)
+            touched = None          # inside a block stereo is fixed only at exit
+        if name == 'enter':
+            txn_touched[o] = set()
+            txn_stereo[o] = st_before
         if name == 'enter':
             enter_state[o] = (wire.mol_to_line(objs[o]), observe(objs[o]))
             attr_in_txn[o] = edit_in_txn[o] = False
@@ -989,6 +1151,19 @@ def oracle(smi, ops):
                 return (f'C13/not-independent/{field}', f'op {i} {op} on object {o} changed {field} of object {j}')
         if not all(symmetric(x) for x in objs):
             return (f'C13/asymmetric-adjacency/{name}', f'after op {i} {op} the adjacency is not symmetric')
+        if exc is None and name != 'exitExc':
+            ref_state = txn_stereo.pop(o, None) if name == 'exitOk' else st_before
+            if ref_state is not None and touched is not None and name != 'remap':
+                d = stereo_lost(ref_state, objs[o], touched)
+                if d:
+                    return (f'C13/stereo-label-lost/{name}', f'op {i} {op} does not touch that part of the molecule, but {d}')
+            if created is not None and name == 'copy' and st_before is not None:
+                d = stereo_lost(st_before, objs[created], set())
+                if d:
+                    return ('C13/stereo-label-lost/copy', f'op {i} {op}: in the copy {d}')
+        if name == 'exitExc':
+            txn_touched.pop(o, None)
+            txn_stereo.pop(o, None)
         if name == 'exitExc' and exc is None and o in enter_state:
             w0, ob0 = enter_state.pop(o)
             ob1 = observe(objs[o])
@@ -1064,7 +1239,7 @@ def search(ctx):
                 if admissible(seq):
                     try_case(smi, interleave_reads(list(seq), CORE_READS))
     pool = [s for s, m in molgen.handmade() if h_consistent(m)]
-    for smi in STEREO_SEEDS:     # created objects against independently built fragments (configuration included)
+    for smi in STEREO_SEEDS + DEPENDENT_STEREO_SEEDS:     # created objects against independently built fragments (configuration included)
         try:
             m0 = fresh_seed(smi)
         except Exception:
@@ -1078,8 +1253,8 @@ def search(ctx):
         for ops in cases:
             try_case(smi, ops)
             try_case(smi, [['read', 0, '__cached_method___str__']] + ops + [['read', len(ops), '__cached_method___str__']])
-    for smi in ALPHABET_SEEDS + STEREO_SEEDS[:4]:
-        for h in rollback_histories(smi):
+    for smi in ALPHABET_SEEDS + STEREO_SEEDS[:4] + ANY_SEEDS:
+        for h in rollback_histories(smi) + neutral_histories(smi):
             if time.time() - t0 > budget * 0.8:
                 break
             try_case(smi, h)
@@ -1092,7 +1267,7 @@ def search(ctx):
                 try_case(smi, pre + [['read', o, k] for k in CORE_READS + ['aromatic_rings', 'int_adjacency', 'not_special_connectivity',
                                                                            'atoms_rings_sizes', 'rings_count', 'brutto']] + [[bulk, o]])
     while time.time() - t0 < budget:
-        smi = ctx.rng.choice(pool + bulk_seeds + STEREO_SEEDS)
+        smi = ctx.rng.choice(pool + bulk_seeds + STEREO_SEEDS + DEPENDENT_STEREO_SEEDS + ANY_SEEDS)
         ops = gen_sequence(ctx.rng, fresh_seed(smi), ctx.rng.randint(3, 25), allow_skip=False)
         for _ in range(ctx.rng.randint(0, 2)):   # splice bulk edits into the history
             ops.insert(ctx.rng.randint(0, len(ops)), [ctx.rng.choice(BULK_OPS), 0])
